@@ -3,5 +3,6 @@ import NflowsModel.Properties.C03
 import NflowsModel.Properties.C03ND
 import NflowsModel.Properties.C03B
 import NflowsModel.Properties.C03M
+import NflowsModel.Properties.C03G
 
 #audit_namespace Properties.C03
